@@ -836,12 +836,13 @@ class Installed:
 
 
 def run_scenario(scenario, broker_factory, seed=0, plan=None, chooser=None, trace_lines=True,
-                 repo_path='/repo', max_steps=200000, p_preempt=0.1, p_jump=0.1, fair_time=False,
+                 repo_path=None, max_steps=200000, p_preempt=0.1, p_jump=0.1, fair_time=False,
                  trace_filter=None, real_timeout=30.0, jump_horizon_ms=50):
     """scenario(ctx) runs in the managed main thread.  ctx has .sched .net .spawn(fn,name) .join(t).
     Returns ctx after the run (ctx.main.exc holds an escaped exception)."""
     chooser = chooser or RandomChooser(seed, p_preempt=p_preempt, p_jump=p_jump, fair_time=fair_time,
                                        jump_horizon_ms=jump_horizon_ms)
+    repo_path = repo_path or os.environ.get('VERIF_REPO', '/repo')
     sched = Scheduler(chooser, repo_path, trace_lines=trace_lines, max_steps=max_steps, trace_filter=trace_filter)
     net = Net(sched, broker_factory, plan)
     ctx = types.SimpleNamespace(sched=sched, net=net, results={}, errors={})
